@@ -195,6 +195,24 @@ def run(ctx) -> None:
                             "how": "build refurb.error.Error subclasses with the given prefix/code/line/column/msg/filename and call refurb.main.format_errors twice: Settings(quiet=True) with color False and True; strip \\x1b[...m",
                         },
                     )
+            # ---- the hint rule on the implementation's own function: present iff at least one diagnostic and not quiet —
+            # whatever else is in the list (mypy/refurb text lines, --debug dumps) and in whatever position
+            for kind, its, _param in [m for m in meta if m[0] == "format" and m[2][0] == "plain"][: 150 if ctx.quick else 2000]:
+                for quiet in (False, True):
+                    for colour in (False, True):
+                        sq = Settings(quiet=quiet)
+                        sq.color = colour
+                        outp = format_errors(to_errors(its), sq)
+                        has_hint = outp.endswith(core.HINT)
+                        want = (not quiet) and any(it["k"] == "diag" for it in its)
+                        res.bump("hint_rule_in_process")
+                        if has_hint != want and seen_viol < 6:
+                            seen_viol += 1
+                            res.violate(
+                                f"--explain hint {'missing' if want else 'printed'} for a list with {sum(1 for it in its if it['k'] == 'diag')} diagnostic(s) and {sum(1 for it in its if it['k'] == 'text')} text line(s), quiet={quiet}",
+                                {"kind": "hint-in-process", "want": want, "quiet": quiet},
+                                {"items": its, "quiet": quiet, "color": colour, "output_tail": outp[-200:], "how": "refurb.main.format_errors(items as Error objects / strings, Settings(quiet=...)); the hint is the last paragraph"},
+                            )
         if ctx.driver.available():
             answers = ctx.driver.batch(reqs)
             for a, e, m in zip(answers, expect, meta):
@@ -220,13 +238,14 @@ def run(ctx) -> None:
             ("syntax-error", ["broken.py"]),
             ("missing", ["nope.py"]),
             ("debug-clean", ["clean.py", "--debug"]),
+            ("debug-diag", ["a.py", "--debug"]),
             ("dir", ["sub"]),
         ]
         jobs = []
         for name, files in scenarios:
             for quiet in ([], ["--quiet"]):
                 for sort in ([], ["--sort", "error"]):
-                    if ctx.quick and name not in ("three-files", "debug-clean") and (quiet or sort):
+                    if ctx.quick and name not in ("three-files", "debug-clean", "debug-diag") and (quiet or sort):
                         continue
                     jobs.append((name, files, quiet, sort))
 
